@@ -92,6 +92,19 @@ def decimalPoint (n d : Nat) : Int :=
   let lg : Int := (Nat.log2 n : Int) - (Nat.log2 d : Int)
   adjustDecpt n d 8 (lg * 30103 / 100000 + 1)
 
+/-- choose between the two candidates: only those that read back (`okLo`, `okHi`);
+of two, the one closer to the value (`dLo`, `dHi` are the distances), ties to even -/
+def pickShortest (okLo okHi : Bool) (lo hi dLo dHi : Nat) : Option Nat :=
+  if okLo && okHi then
+    (if dLo < dHi then some lo else if dHi < dLo then some hi else if lo % 2 = 0 then some lo else some hi)
+  else if okLo then some lo
+  else if okHi then some hi
+  else none
+
+/-- does the decimal `D × 10^x` read back as the double `m × 2^q`? -/
+def readsBack (m : Nat) (q : Int) (D : Nat) (x : Int) : Bool :=
+  roundDecimal false D x = .fin false m q
+
 /-- candidates with `k` significant digits: the two integers around `v × 10^(k - decpt)`;
 returns the one that reads back as `(m, q)` and is closest to `v` -/
 def shortestWith (m : Nat) (q : Int) (vn vd : Nat) (decpt : Int) (k : Nat) : Option Nat :=
@@ -100,17 +113,8 @@ def shortestWith (m : Nat) (q : Int) (vn vd : Nat) (decpt : Int) (k : Nat) : Opt
   let den := if s ≥ 0 then vd else vd * 10 ^ (-s).toNat
   let lo := num / den
   let hi := lo + 1
-  let back (D : Nat) : Bool := roundDecimal false D (-s) = .fin false m q
-  let okLo := lo ≠ 0 && back lo
-  let okHi := back hi
   -- distances, scaled by den: v - lo = num - lo*den ; hi - v = hi*den - num
-  let dLo := num - lo * den
-  let dHi := hi * den - num
-  if okLo && okHi then
-    (if dLo < dHi then some lo else if dHi < dLo then some hi else if lo % 2 = 0 then some lo else some hi)
-  else if okLo then some lo
-  else if okHi then some hi
-  else none
+  pickShortest (lo ≠ 0 && readsBack m q lo (-s)) (readsBack m q hi (-s)) lo hi (num - lo * den) (hi * den - num)
 
 def shortestSearch (m : Nat) (q : Int) (vn vd : Nat) (decpt : Int) : Nat → Nat → Option (Nat × Nat)
   | 0, _ => none
@@ -122,19 +126,24 @@ def shortestSearch (m : Nat) (q : Int) (vn vd : Nat) (decpt : Int) : Nat → Nat
 /-- drop trailing `'0'` characters -/
 def stripTrailingZeros (ds : Str) : Str := (ds.reverse.dropWhile (· = '0')).reverse
 
+/-- digits of `D` without trailing zeros (`"0"` if none are left) -/
+def digitsOf (D : Nat) : Str :=
+  let t := stripTrailingZeros (natStr D)
+  if t.isEmpty then ['0'] else t
+
 /-- shortest digits and decimal point position of the positive double `m × 2^q`:
-the value is `0.d₁d₂… × 10^decpt` -/
+the value is `0.d₁d₂… × 10^decpt`. Seventeen significant digits always identify a
+double; should the search not find fewer, the 17-digit truncation is used. -/
 def shortestDigits (m : Nat) (q : Int) : Str × Int :=
   let v := f64Ratio m q
   let decpt := decimalPoint v.1 v.2
-  match shortestSearch m q v.1 v.2 decpt 18 1 with
-  | some (D, k) =>
-    -- `D` may be `10^k` (all nines rounded up): one more digit before the point
-    let ds := natStr D
-    let decpt' := decpt + ((ds.length : Int) - (k : Int))
-    let t := stripTrailingZeros ds
-    (if t.isEmpty then ['0'] else t, decpt')
-  | none => (['?'], 0)
+  let r : Nat × Nat := match shortestSearch m q v.1 v.2 decpt 18 1 with
+    | some r => r
+    | none =>
+      let s : Int := 17 - decpt
+      ((if s ≥ 0 then v.1 * 10 ^ s.toNat / v.2 else v.1 / (v.2 * 10 ^ (-s).toNat)), 17)
+  -- `D` may be `10^k` (all nines rounded up): one more digit before the point
+  (digitsOf r.1, decpt + (((natStr r.1).length : Int) - (r.2 : Int)))
 
 /-- `repr` layout of digits `0.ds × 10^decpt` -/
 def reprLayout (ds : Str) (decpt : Int) : Str :=
